@@ -663,7 +663,12 @@ class TypeTransformer:
         if not self.no_data_loss:
             if isinstance(data, str) and data in t.__members__:  # noqa
                 # member names are str (testing an unhashable value like a list would raise TypeError)
-                return t.__members__[data]  # noqa
+                try:
+                    # the text is also the VALUE of a member: the value decides, as it does under the
+                    # stricter options, and as the encoders write a member
+                    return t(data)  # noqa
+                except ValueError:
+                    return t.__members__[data]  # noqa
         member_type = getattr(t, "_member_type_", None)
         if member_type and member_type != object:
             if type(data) != member_type:
